@@ -39,6 +39,9 @@ def verify(src, sid, prop):
         print("missing patch.diff or demo_test.go in", src)
         return 1
     wt = "/tmp/seedverify-%d" % os.getpid()
+    # schema/gen/go builds in $TMPDIR/test-go-ipld-prime-gengo: keep it private so concurrent runs cannot collide
+    os.makedirs(wt + "-tmp", exist_ok=True)
+    os.environ["TMPDIR"] = wt + "-tmp"
     sh("git -C %s worktree remove --force %s" % (REPO, wt))
     rc, out = sh("git -C %s worktree add --detach %s HEAD" % (REPO, wt))
     if rc != 0:
@@ -85,6 +88,7 @@ def verify(src, sid, prop):
     finally:
         sh("git -C %s worktree remove --force %s" % (REPO, wt))
         shutil.rmtree(wt, ignore_errors=True)
+        shutil.rmtree(wt + "-tmp", ignore_errors=True)
     dst = os.path.join(VERIF, "seeded", sid)
     os.makedirs(dst, exist_ok=True)
     shutil.copy(patch, os.path.join(dst, "patch.diff"))
